@@ -1,6 +1,12 @@
 use super::*;
 use crate::logging;
+#[cfg(not(sentinel_verif))]
 use std::sync::{
+    atomic::{AtomicU64, Ordering},
+    Arc, Mutex,
+};
+#[cfg(sentinel_verif)]
+use sentinel_verif_rt::sync::{
     atomic::{AtomicU64, Ordering},
     Arc, Mutex,
 };
